@@ -281,6 +281,30 @@ example :
 theorem C27_fq_has_slack : 0 < Gen.C27.coalescedFailureQueueSize ∧ 0 < Gen.C27.remoteSendCoalescingMaxBatch := by
   decide
 
+/-! ### one coalescer (one writer goroutine) per destination -/
+
+/-- ONE WRITER PER DESTINATION: whatever the number of goroutines racing through `getCoalescer` for a
+    destination and however their steps interleave, at most one coalescer is ever created and every
+    call returns that one — so all senders feed the single channel / single writer that the theorems
+    above are about.  (The second lookup under `coalescersMu` is what this rests on; the call order
+    is re-extracted from client.go on every run, FACTS in tools/props/c27.py.) -/
+theorem C27_single_coalescer (n : Nat) (acts : List GC.GAct) :
+    (GC.grun true (GC.ginit n) acts).created ≤ 1 ∧
+    ∀ th ∈ (GC.grun true (GC.ginit n) acts).threads, ∀ c, th.got = some c → c = 0 := by
+  obtain ⟨h1, _, _, h4, _⟩ := GC.ginv_run acts (GC.ginit n) (GC.ginv_init n)
+  exact ⟨h1, h4⟩
+
+/-- non-vacuity: two first senders racing, both miss the fast path, both return coalescer 0 -/
+example :
+    let s := GC.grun true (GC.ginit 2) [.look 0, .look 1, .acquire 0, .cs, .cs, .cs, .acquire 1, .cs, .cs]
+    s.created = 1 ∧ s.threads.map (·.got) = [some 0, some 0] ∧ s.threads.map (·.pc) = [.done, .done] := by decide
+
+/-- TEST on the variant without the second lookup (seeded defect C27-m5): the same schedule creates
+    two coalescers; thread 0 is left with the orphan. -/
+example :
+    let s := GC.grun false (GC.ginit 2) [.look 0, .look 1, .acquire 0, .cs, .cs, .acquire 1, .cs, .cs]
+    s.created = 2 ∧ s.threads.map (·.got) = [some 0, some 1] ∧ s.map = some 1 := by decide
+
 /-- the model's fan-out capacity is the source constant (regenerated on every run) -/
 theorem C27_fq_cap_tie : Gen.C27.coalescedFailureQueueSize = (sysFanoutCap : Int) := by decide
 
